@@ -5,7 +5,7 @@ from sim.core import FAILED
 from sim.steps import LineBudget, BudgetExceeded
 
 ID = "C15"
-CASES = {"quick": 700, "thorough": 12000}
+CASES = {"quick": 2000, "thorough": 12000}
 RULE = ("seeded grammars (ambiguous, epsilon productions and epsilon subtrees, left recursion) x member and "
         "non-member words <=4 x value-hash schedule x PYTHONHASHSEED (which tree comes back is an order "
         "decision); every tree from get_cnf_parse_tree / LL(1) / recursive descent (left and right) / "
